@@ -186,6 +186,11 @@ def _mku(pool, op):
             kw["vertices"] = _as_container(vs, ckind)
         if laws is not None:
             kw["laws"] = pool.get(laws)
+        elif idx % 5 == 1:
+            # laws are declarative: a universe whose (own, fresh) law set forbids everything holds what it is given
+            kw["laws"] = UniverseLaws(mixed_links=False, cycles=False, multipath=False, multiverse=False)
+        if idx % 2 == 0:
+            kw["uid"] = 424242  # user-assigned uid: nothing makes uids unique, several universes share this one
         # (every third universe is an instance of a subclass: plain, without overrides - or one that is falsy)
         return (Universe, zoo.World, Universe, zoo.FalsyUniverse, Universe, zoo.World)[idx % 6](**kw)
 
